@@ -33,11 +33,86 @@ class AttrV:
     def merge(self, g, o): return AttrV(IF(g, self.idx, o.idx))
 
 def cubes(tier, has_fc):
-    if tier == 'quick': return [{'K': 2, 'gk': gk, 'mclass': mc} for gk in (0, 1) for mc in ('untyped', 'declaration')] + [{'K': 2, 'gk': 2, 'mclass': 'typed'}]
-    return [{'K': 2, 'gk': gk, 'mclass': mc} for gk in range(3) for mc in MCLASS] + [{'K': 3, 'gk': gk, 'mclass': mc} for gk in (0, 1) for mc in ('untyped', 'typed')]
-def cube_name(c): return f"K{c['K']}_g{c['gk']}_{c.get('mclass', 'any')}"
+    edges = [{'edges': True, 'gk': gk, 'Dn': 2 if tier == 'quick' else 3} for gk in range(3)]
+    if tier == 'quick': return edges + [{'K': 2, 'gk': gk, 'mclass': mc} for gk in (0, 1) for mc in ('untyped', 'declaration')] + [{'K': 2, 'gk': 2, 'mclass': 'typed'}]
+    return edges + [{'K': 2, 'gk': gk, 'mclass': mc} for gk in range(3) for mc in MCLASS] + [{'K': 3, 'gk': gk, 'mclass': mc} for gk in (0, 1) for mc in ('untyped', 'typed')]
+def cube_name(c): return f"edges_D{c['Dn']}_g{c['gk']}" if c.get('edges') else f"K{c['K']}_g{c['gk']}_{c.get('mclass', 'any')}"
+
+def build_edges(mir, cube):
+    """Builder::visit_module_dependencies: which recorded dependency edges the builder asks the loader for (Builder::load is a
+    recording stub), which it defers as dynamic branches, and which resolutions it clears, per graph kind / skip_dynamic_deps /
+    in_dynamic_branch. Oracle (GraphKind docs): code edges are followed when code is included, or when the dependency has no
+    separate type resolution (its code is what provides the types); type edges when types are included; dynamic dependencies are
+    skipped entirely with skip_dynamic_deps, deferred outside a dynamic branch, loaded directly inside one."""
+    Dn = cube['Dn']; UU = 3
+    sym = Sym()
+    st = dict(mir.structs)
+    eng = Engine(mir, usize_bits=8, unroll=Dn + 2)
+    gk = BV(cube['gk'], 8); inc_code = cube['gk'] != 2; inc_types = cube['gk'] != 1
+    skip_dyn = sym.bool('skip_dynamic_deps'); in_dyn = sym.bool('in_dynamic_branch')
+    loads = []
+    def stub_load(e, c, a, g):
+        o = a[1]
+        sp = uid(e, o.f[st['LoadOptionsRef'].index('specifier')])
+        loads.append((g, sp, o.f[st['LoadOptionsRef'].index('in_dynamic_branch')])); return UNIT
+    eng.cfg.update(N=UU, VEC=2, stubs=[(re.compile(r'Builder::<.*>::load'), stub_load)])
+    deps, info = [], []
+    for d in range(Dn):
+        ck = sym.bv(f'e{d}_code_kind', 8, lt=3); ct = sym.bv(f'e{d}_code_target', 8, lt=UU)
+        tk = sym.bv(f'e{d}_type_kind', 8, lt=3); tt = sym.bv(f'e{d}_type_target', 8, lt=UU)
+        dyn = sym.bool(f'e{d}_dynamic'); p = sym.bool(f'e{d}_present')
+        def resv(k, t):
+            rng = Agg([{'specifier': UrlV(BV(0, 8)), 'range': O, 'resolution_mode': O}[f] for f in st['Range']])
+            rerr = mir.enums['ResolutionError'].index('ResolverError')
+            return EnumV(k, {0: Agg([]), 1: Agg([BoxV(Agg([{'specifier': UrlV(t), 'range': rng}[f] for f in st['ResolutionResolved']]))]), 2: Agg([BoxV(EnumV(rerr, {rerr: Agg([O, O, rng])}))])})
+        deps.append(Agg([{'maybe_code': resv(ck, ct), 'maybe_type': resv(tk, tt), 'is_dynamic': dyn, 'maybe_attribute_type': none(), 'maybe_deno_types_specifier': none(), 'imports': VecModel([None, None], BV(0, 8))}[f] for f in st['Dependency']]))
+        info.append({'p': p, 'ck': ck, 'ct': ct, 'tk': tk, 'tt': tt, 'dyn': dyn})
+    depmap = Root(SlotMap([i['p'] for i in info], [TextV(BV(d, 8)) for d in range(Dn)], deps), 'deps')
+    graph = Agg([{'graph_kind': EnumV(gk, {})}.get(f, O) for f in st['ModuleGraph']])
+    state = Agg([{'dynamic_branches': MapModel.empty(UU)}.get(f, O) for f in st['PendingState']])
+    builder = Agg([{'in_dynamic_branch': in_dyn, 'skip_dynamic_deps': skip_dyn, 'graph': ref_to(graph, 'graph'), 'state': state, 'resolved_roots': SetModel([FALSE] * UU, BV(0, 8))}.get(f, O) for f in st['Builder']])
+    broot = Root(builder, 'builder')
+    eng.call(mir.find('Builder', 'visit_module_dependencies'), [Ptr([(TRUE, (broot, ()))]), Ptr([(TRUE, (depmap, ()))]), none()], TRUE)
+    branches = broot.val.f[st['Builder'].index('state')].f[st['PendingState'].index('dynamic_branches')]
+    out = depmap.val
+    def loaded(u, dynflag=None): return Or(z3.And(g, sp == u) for g, sp, f in loads)
+    bad_load, bad_defer, bad_clear = [], [], []
+    for u in range(UU):
+        want_now, want_defer = [], []
+        for i in info:
+            active = z3.And(i['p'], z3.Not(z3.And(i['dyn'], skip_dyn)))
+            code_follow = z3.And(active, i['ck'] == 1, i['ct'] == u, z3.Or(inc_code, i['tk'] == 0))
+            type_follow = z3.And(active, inc_types, i['tk'] == 1, i['tt'] == u)
+            deferred = z3.And(i['dyn'], z3.Not(in_dyn))
+            want_now += [z3.And(code_follow, z3.Not(deferred)), z3.And(type_follow, z3.Not(deferred))]
+            want_defer += [z3.And(code_follow, deferred), z3.And(type_follow, deferred)]
+        bad_load.append(loaded(u) != Or(want_now))
+        bad_defer.append(branches.present[u] != Or(want_defer))
+    for d, i in enumerate(info):
+        dep = out.vals[d]
+        ck2 = dep.f[st['Dependency'].index('maybe_code')].tag; tk2 = dep.f[st['Dependency'].index('maybe_type')].tag
+        active = z3.And(i['p'], z3.Not(z3.And(i['dyn'], skip_dyn)))
+        exp_ck = z3.If(z3.And(active, z3.Not(z3.Or(inc_code, i['tk'] == 0))), z3.BitVecVal(0, 8), i['ck'])
+        exp_tk = z3.If(z3.And(active, not inc_types), z3.BitVecVal(0, 8), i['tk'])
+        bad_clear.append(z3.And(i['p'], z3.Or(ck2 != exp_ck, tk2 != exp_tk)))
+    def describe(m):
+        def ev(x):
+            v = m.eval(x, model_completion=True); return z3.is_true(v) if z3.is_bool(v) else v.as_long()
+        return {'graph_kind': cube['gk'], 'skip_dynamic_deps': ev(skip_dyn), 'in_dynamic_branch': ev(in_dyn),
+                'dependencies': [{k: ev(v) for k, v in i.items()} for i in info], 'loads': [ev(sp) for g, sp, f in loads if ev(g)], 'deferred': [u for u in range(UU) if ev(branches.present[u])]}
+    qs = [Query('loader-is-asked-exactly-for-the-edges-the-graph-kind-and-options-select', Or(bad_load), describe=describe),
+          Query('dynamic-edges-outside-a-dynamic-branch-are-deferred-not-dropped', Or(bad_defer), describe=describe),
+          Query('resolutions-not-followed-for-the-graph-kind-are-cleared-others-untouched', Or(bad_clear), describe=describe),
+          Query('load-keeps-the-dynamic-branch-flag', Or(z3.And(g, f != in_dyn) for g, sp, f in loads), describe=describe),
+          Query('witness-load-and-defer', z3.And(Or(g for g, sp, f in loads), Or(branches.present)), expect='sat', kind='witness')]
+    for fname in sorted({f for f, _ in eng.exceeded}):
+        qs.insert(0, Query('unwinding:' + fname.split('>::')[-1], Or(gd for f, gd in eng.exceeded if f == fname), kind='unwind'))
+    qs.insert(0, Query('model-capacity', Or(gd for _, gd in eng.obligations), kind='obligation'))
+    qs.insert(0, Query('no-panic', Or(gd for _, gd in eng.panics)))
+    return eng, None, list(sym.cons), qs
 
 def build(mir, cube):
+    if cube.get('edges'): return build_edges(mir, cube)
     K = cube['K']
     sym = Sym()
     st, en = dict(mir.structs), mir.enums
